@@ -320,6 +320,10 @@ fn panic_msg(p: &Box<dyn std::any::Any + Send>) -> String {
 
 pub fn execute(t: &Trace) -> Outcome {
     ledger::reset();
+    let careful = simcore::faultalloc::careful() && !cfg!(miri);
+    if careful {
+        simcore::faultalloc::track(true);
+    }
     let mut out = Outcome::default();
     let mut ctr = Ctr { v: vec![] };
     let _ = writeln!(out.log, "seed={} run={} engine=own-l1", t.seed, t.run);
@@ -548,6 +552,10 @@ pub fn execute(t: &Trace) -> Outcome {
         ctr.inc("ops_executed");
         out.transitions.push((prev_kind << 16) | (kind << 8) | (cls << 4) | pcls);
         prev_kind = kind;
+        if careful && simcore::faultalloc::double_frees() > 0 {
+            viol = Some(Violation { oracle: "O4-double-free".into(), step, detail: "a heap block was released twice during this operation".into() });
+            break 'ops;
+        }
         if let Some(v) = check_after(step, &model, &foreign) {
             viol = Some(v);
             break 'ops;
@@ -608,6 +616,12 @@ pub fn execute(t: &Trace) -> Outcome {
         for s in slots.drain(..) {
             std::mem::forget(s);
         }
+    }
+    if careful {
+        if viol.is_none() && simcore::faultalloc::double_frees() > 0 {
+            viol = Some(Violation { oracle: "O4-double-free".into(), step: t.ops.len(), detail: "a heap block was released twice while the remaining values were dropped".into() });
+        }
+        simcore::faultalloc::track(false);
     }
     if let Some(v) = &viol {
         let _ = writeln!(out.log, "VIOLATION oracle={} step={} {}", v.oracle, v.step, v.detail);
